@@ -660,7 +660,16 @@ func ChoiceHeavy(r *rand.Rand) *Grammar {
 					head = []*Expr{inner}
 				}
 			case 9:
-				head = []*Expr{Un(KPlus, term())}
+				// e+ heading an alternative: over a bare terminal, over a sequence, over a small choice (the "first
+				// comparison already done" knowledge of a switch case holds for the first round of the loop only)
+				switch r.Intn(3) {
+				case 0:
+					head = []*Expr{Un(KPlus, term())}
+				case 1:
+					head = []*Expr{Un(KPlus, Seq(term(), term())), term()}
+				default:
+					head = []*Expr{Un(KPlus, Alt(Seq(term(), term()), term())), Un(KQuery, term())}
+				}
 			case 10:
 				if r.Intn(2) == 0 {
 					// an alternative that is NOTHING but a lookahead over something that consumes before it decides
@@ -705,7 +714,15 @@ func ChoiceHeavy(r *rand.Rand) *Grammar {
 			for i := 0; i < n; i++ {
 				c1 := next()
 				var first *Expr
-				switch r.Intn(6) {
+				switch r.Intn(7) {
+				case 6:
+					// a loop over a sequence that starts with the (single) key of the case: the key is known to be there
+					// in the first round only
+					if r.Intn(2) == 0 {
+						first = Un(KPlus, Seq(&Expr{K: KLit, Text: []rune{c1}}, term()))
+					} else {
+						first = Un(KPlus, Alt(Seq(&Expr{K: KLit, Text: []rune{c1}}, term()), &Expr{K: KLit, Text: []rune{c1}}))
+					}
 				case 5:
 					// an inner choice whose first branch starts with a small range and whose second branch starts elsewhere
 					c2 := next()
